@@ -27,6 +27,13 @@ type roleFinding struct {
 var genericParamNames = map[string]bool{"obj": true, "object": true, "o": true, "v": true, "x": true, "y": true, "s": true, "b": true, "in": true, "out": true,
 	"data": true, "value": true, "val": true, "item": true, "e": true, "err": true, "ctx": true, "a": true, "i": true, "n": true, "t": true, "src": true, "dst": true, "elems": true}
 
+// namedOperand: single-operand constructors of apimachinery → what the operand's name must contain.
+var namedOperand = map[string]string{
+	"schema.ParseGroupVersion":         "version|gv",
+	"schema.GroupVersion.WithResource": "resource|name|plural",
+	"schema.GroupVersion.WithKind":     "kind",
+}
+
 // roleExceptions: callee / parameter / argument name → reason (confirmed by reading; one symbol each).
 var roleExceptions = map[string]string{
 	"childClaimMap.setParentRevision/pr/latest": "moving the claim to the latest revision is the purpose of these calls; the caller's pr is the previous claimant",
@@ -150,6 +157,42 @@ func roleFindingsUncached(p *Program) ([]roleFinding, int) {
 				}
 				ast.Inspect(fd.Body, func(n ast.Node) bool {
 					switch x := n.(type) {
+					case *ast.BlockStmt:
+						// (Q) `…, err := call(…)` followed at once by `if otherErr != nil`: the test is about another error
+						for si := 0; si+1 < len(x.List); si++ {
+							as, isA := x.List[si].(*ast.AssignStmt)
+							ifs, isIf := x.List[si+1].(*ast.IfStmt)
+							if !isA || !isIf || ifs.Init != nil || len(as.Rhs) != 1 {
+								continue
+							}
+							if _, isCall := as.Rhs[0].(*ast.CallExpr); !isCall {
+								continue
+							}
+							last, isI := as.Lhs[len(as.Lhs)-1].(*ast.Ident)
+							if !isI || last.Name == "_" {
+								continue
+							}
+							lo := info.ObjectOf(last)
+							if lo == nil || !types.Identical(lo.Type(), types.Universe.Lookup("error").Type()) {
+								continue
+							}
+							be, isB := ifs.Cond.(*ast.BinaryExpr)
+							if !isB || (be.Op.String() != "!=" && be.Op.String() != "==") {
+								continue
+							}
+							ci, isCI := be.X.(*ast.Ident)
+							ni, isNI := be.Y.(*ast.Ident)
+							if !isCI || !isNI || ni.Name != "nil" {
+								continue
+							}
+							co := info.ObjectOf(ci)
+							if co == nil || co == lo || !types.Identical(co.Type(), lo.Type()) {
+								continue
+							}
+							pos := p.Fset.Position(ifs.Pos())
+							ord["errnext"]++
+							out = append(out, roleFinding{rel + ":" + itoaN(pos.Line), fd.Name.Name + "→error-test#" + itoaN(ord["errnext"]-1), "the call just before assigns its error to " + last.Name + ", but the test that follows looks at " + ci.Name + ": a failure of that call is not noticed here", rel})
+						}
 					case *ast.AssignStmt:
 						// (E) x = append(y, …): the slice that grows is the one that is kept
 						if len(x.Lhs) == 1 && len(x.Rhs) == 1 && x.Tok.String() == "=" {
@@ -162,6 +205,32 @@ func roleFindingsUncached(p *Program) ([]roleFinding, int) {
 										ord["append"]++
 										out = append(out, roleFinding{rel + ":" + itoaN(pos.Line), fd.Name.Name + "→append#" + itoaN(ord["append"]-1), li.Name + " = append(" + ai.Name + ", …): the elements are added to one slice and the result is kept in another — what " + li.Name + " held is lost", rel})
 									}
+								}
+							}
+						}
+					case *ast.IfStmt:
+						// (P) if v, err := f(); COND — COND tests what the init statement has just produced
+						if as, isA := x.Init.(*ast.AssignStmt); isA && len(as.Rhs) == 1 {
+							if _, isCall := as.Rhs[0].(*ast.CallExpr); isCall {
+								defs := map[types.Object]bool{}
+								for _, l := range as.Lhs {
+									if id, isI := l.(*ast.Ident); isI && id.Name != "_" {
+										if o := info.ObjectOf(id); o != nil {
+											defs[o] = true
+										}
+									}
+								}
+								uses := false
+								ast.Inspect(x.Cond, func(m ast.Node) bool {
+									if id, isI := m.(*ast.Ident); isI && defs[info.ObjectOf(id)] {
+										uses = true
+									}
+									return !uses
+								})
+								if len(defs) > 0 && !uses {
+									pos := p.Fset.Position(x.Pos())
+									ord["ifinit"]++
+									out = append(out, roleFinding{rel + ":" + itoaN(pos.Line), fd.Name.Name + "→if-init#" + itoaN(ord["ifinit"]-1), "the condition of `if … := call(); cond` tests none of the values the call has just returned: its outcome (an error, a found flag) is not what decides the branch", rel})
 								}
 							}
 						}
@@ -199,6 +268,40 @@ func roleFindingsUncached(p *Program) ([]roleFinding, int) {
 							}
 						}
 					case *ast.BinaryExpr:
+						// (M) a.F == b.G with F ≠ G although a has a field G (or b a field F) of that type
+						if x.Op.String() == "==" || x.Op.String() == "!=" {
+							sx, okX := x.X.(*ast.SelectorExpr)
+							sy, okY := x.Y.(*ast.SelectorExpr)
+							if okX && okY && sx.Sel.Name != sy.Sel.Name {
+								lx, ly := info.Selections[sx], info.Selections[sy]
+								if lx != nil && ly != nil && lx.Kind() == types.FieldVal && ly.Kind() == types.FieldVal && types.Identical(lx.Obj().Type(), ly.Obj().Type()) {
+									hasField := func(recv types.Type, name string, t types.Type) bool {
+										st, isS := derefStruct(recv)
+										if !isS {
+											return false
+										}
+										for k := 0; k < st.NumFields(); k++ {
+											if st.Field(k).Name() == name && types.Identical(st.Field(k).Type(), t) {
+												return true
+											}
+											if est, isE := derefStruct(st.Field(k).Type()); isE && st.Field(k).Embedded() {
+												for q := 0; q < est.NumFields(); q++ {
+													if est.Field(q).Name() == name && types.Identical(est.Field(q).Type(), t) {
+														return true
+													}
+												}
+											}
+										}
+										return false
+									}
+									if hasField(lx.Recv(), sy.Sel.Name, ly.Obj().Type()) && hasField(ly.Recv(), sx.Sel.Name, lx.Obj().Type()) {
+										pos := p.Fset.Position(x.Pos())
+										ord["fieldcmp"]++
+										out = append(out, roleFinding{rel + ":" + itoaN(pos.Line), fd.Name.Name + "→field-compare#" + itoaN(ord["fieldcmp"]-1), "field " + sx.Sel.Name + " of one value is compared with field " + sy.Sel.Name + " of the other although both values have both fields: unlike things are compared", rel})
+									}
+								}
+							}
+						}
 						// (G) x == x / x != x
 						if (x.Op.String() == "==" || x.Op.String() == "!=") && sameVar(x.X, x.Y) {
 							pos := p.Fset.Position(x.Pos())
@@ -257,6 +360,32 @@ func roleFindingsUncached(p *Program) ([]roleFinding, int) {
 						}
 						return ""
 					}
+					// (S) a few apimachinery constructors whose parameter names say nothing (gv, resource): what they are
+					// given must at least be called the thing they parse / attach
+					if want, isS := namedOperand[callee.Pkg().Name()+"."+ckey]; isS && len(ce.Args) == 1 {
+						an := normName(argName(ce.Args[0]))
+						hit := an == ""
+						for _, w := range strings.Split(want, "|") {
+							if strings.Contains(an, w) {
+								hit = true
+							}
+						}
+						if !hit {
+							pos := p.Fset.Position(ce.Args[0].Pos())
+							out = append(out, roleFinding{rel + ":" + itoaN(pos.Line), construct + "[operand-name]", ckey + " is given " + argName(ce.Args[0]) + ", which is not called anything like " + want + ": wrong operand", rel})
+						}
+					}
+					// (R) one variable for two parameters of a module function
+					if inModule {
+						for i := 0; i < np; i++ {
+							for j := i + 1; j < np; j++ {
+								if sameVar(ce.Args[i], ce.Args[j]) {
+									pos := p.Fset.Position(ce.Args[j].Pos())
+									out = append(out, roleFinding{rel + ":" + itoaN(pos.Line), construct + "[arg" + itoaN(i) + "=arg" + itoaN(j) + "]", "the same variable is passed as " + sig.Params().At(i).Name() + " and as " + sig.Params().At(j).Name() + " of " + ckey, rel})
+								}
+							}
+						}
+					}
 					for i := 0; i < np; i++ {
 						pi := sig.Params().At(i)
 						pn := normName(pi.Name())
@@ -270,7 +399,8 @@ func roleFindingsUncached(p *Program) ([]roleFinding, int) {
 						// (A) the argument is named like ANOTHER parameter of identical type
 						for j := 0; j < sig.Params().Len() && !soft; j++ {
 							pj := sig.Params().At(j)
-							if j != i && sameRole(an, normName(pj.Name())) && types.Identical(pj.Type(), pi.Type()) {
+							at := info.TypeOf(ce.Args[i])
+							if j != i && an == normName(pj.Name()) && at != nil && (types.Identical(pj.Type(), pi.Type()) || (types.AssignableTo(at, pj.Type()) && types.AssignableTo(at, pi.Type()))) {
 								out = append(out, roleFinding{where, construct + "[arg" + itoaN(i) + "]", "argument " + argName(ce.Args[i]) + " is passed as parameter " + pi.Name() + " of " + ckey + ", which has a parameter " + pj.Name() + " of the same type: swapped roles", rel})
 							}
 						}
@@ -702,4 +832,277 @@ func oneKeyPerSharedMap(r *Report, p *Program, rule string) {
 		}
 	}
 	r.Check(rule, FK(f)+"[one-key]", p.Pos(f.Pos()), ok, sf("%d accesses, one key", n), why)
+}
+
+// errorValuesUsed (C12/C20/C13): an error a call returns into a variable (not `_`) is looked at — compared,
+// returned, wrapped or passed on — before it is lost. (`x, err := f(); if otherErr != nil` type-checks as long as
+// err is assigned again later.)
+func errorValuesUsed(r *Report, p *Program, rule string) {
+	r.Rule(rule, "module-wide: every error result that is bound to a variable has at least one use (comparison, return, argument, store)")
+	r.Floor(rule, 1)
+	n := 0
+	errT := types.Universe.Lookup("error").Type()
+	for _, f := range p.Scanned {
+		k := FK(f)
+		if strings.Contains(k, "/pkg/client/generated") || strings.Contains(k, "zzmcvetcontrols") {
+			continue
+		}
+		ord := 0
+		for _, b := range f.Blocks {
+			for _, in := range b.Instrs {
+				var v ssa.Value
+				var call *ssa.Call
+				switch x := in.(type) {
+				case *ssa.Extract:
+					if c, isC := x.Tuple.(*ssa.Call); isC && types.Identical(x.Type(), errT) {
+						v, call = x, c
+					}
+				case *ssa.Call:
+					if types.Identical(x.Type(), errT) {
+						v, call = x, x
+					}
+				}
+				if v == nil {
+					continue
+				}
+				n++
+				used := false
+				if refs := v.Referrers(); refs != nil {
+					for _, u := range *refs {
+						if _, isD := u.(*ssa.DebugRef); !isD {
+							used = true
+						}
+					}
+				}
+				if used || blankErrorLHS(f, call) {
+					continue
+				}
+				// a single-result call used as a statement (`f()`) is errcheck's business (R12.1), not this rule's
+				if _, isEx := v.(*ssa.Extract); !isEx {
+					continue
+				}
+				ord++
+				r.Check(rule, sf("%s→%s#%d[error-looked-at]", Short(k), Short(engine.CallKey(call.Common())), ord), p.InstrPos(in), false, "",
+					"the error returned by this call is bound to a variable and never looked at (the test that follows examines another variable): a failure here goes unnoticed and the nil/zero results are used")
+			}
+		}
+	}
+	r.Check(rule, sf("error results bound to variables (%d examined)", n), "-", n >= 150, "all looked at", sf("only %d error results found", n))
+}
+
+// hookWiring (C10/C20/C03): hooks.NewHook(spec.Hooks.<X>, …, common.<X>Hook) and the result is kept as <x>Hook —
+// the three names agree (the finalize hook is not built from the sync hook's URL, nor reported under its type).
+func hookWiring(r *Report, p *Program, rule string) {
+	r.Rule(rule, "every hooks.NewHook call: the spec field, the HookType constant and the field the hook is stored in name the same hook")
+	r.Floor(rule, 4)
+	n := 0
+	for _, f := range p.Scanned {
+		if strings.Contains(FK(f), "zzmcvetcontrols") {
+			continue
+		}
+		for _, cs := range callsTo(f, false, "hooks.NewHook") {
+			args := cs.Common().Args
+			if len(args) != 4 {
+				continue
+			}
+			n++
+			kind := ""
+			if c, isC := args[3].(*ssa.Const); isC && c.Value != nil {
+				kind = strings.Trim(c.Value.ExactString(), `"`)
+			}
+			src := E(args[0])
+			okSrc := strings.HasSuffix(strings.ToLower(src), ".hooks."+kind) || strings.Contains(strings.ToLower(src), "get"+kind+"hook)")
+			// where the result goes
+			okDst, dst := true, ""
+			if v, isV := cs.Instr.(ssa.Value); isV {
+				forwardUses(v, 0, map[ssa.Value]bool{}, func(u ssa.Instruction) {
+					if st, isS := u.(*ssa.Store); isS {
+						if fa, isFA := st.Addr.(*ssa.FieldAddr); isFA {
+							dst = fieldName(fa)
+							if strings.HasSuffix(strings.ToLower(dst), "hook") && strings.ToLower(dst) != kind+"hook" {
+								okDst = false
+							}
+						}
+					}
+				})
+			}
+			r.Check(rule, sf("%s→NewHook(%s)", Short(FK(f)), kind), p.InstrPos(cs.Instr), kind != "" && okSrc && okDst, "spec field, hook type and destination agree",
+				sf("hook type %q is built from %s and kept in %q: the names do not agree — a hook is wired to another hook's URL / reported as another hook", kind, src, dst))
+		}
+	}
+	if n == 0 {
+		r.Check(rule, "hooks.NewHook", "-", false, "", "no NewHook call found")
+	}
+}
+
+// setterGetsOwnMap (C16/C01/C06): o.SetLabels(m) / o.SetAnnotations(m): when m comes from a GetLabels/GetAnnotations/
+// NestedStringMap at all, it comes from one on o itself — not from the parent's (or another child's) map.
+func setterGetsOwnMap(r *Report, p *Program, rule string) {
+	r.Rule(rule, "SetLabels/SetAnnotations(m) on x: a getter in m's history that reads another object than x is matched by one that reads x (maps are edited in place and written back to their owner)")
+	r.Floor(rule, 3)
+	n := 0
+	for _, f := range p.Scanned {
+		if strings.Contains(FK(f), "zzmcvetcontrols") || strings.Contains(FK(f), "/pkg/client/generated") {
+			continue
+		}
+		for _, cs := range callsTo(f, true, "Unstructured.SetLabels", "Unstructured.SetAnnotations") {
+			if len(cs.Common().Args) < 2 {
+				continue
+			}
+			recv, m := engine.Unwrap(cs.Common().Args[0]), cs.Common().Args[1]
+			want := "Unstructured.GetLabels"
+			if strings.HasSuffix(cs.Key, "SetAnnotations") {
+				want = "Unstructured.GetAnnotations"
+			}
+			own, foreign := false, ""
+			engine.BackSlice(m, func(x ssa.Value) bool {
+				c, isC := x.(*ssa.Call)
+				if !isC || len(c.Common().Args) == 0 {
+					return false
+				}
+				k := engine.CallKey(c.Common())
+				if strings.HasSuffix(k, want) || strings.HasSuffix(k, "Unstructured.GetLabels") || strings.HasSuffix(k, "Unstructured.GetAnnotations") {
+					if g := engine.Unwrap(c.Common().Args[0]); engine.SameValue(g, recv) || E(g) == E(recv) {
+						own = true
+					} else {
+						foreign = E(g)
+					}
+				}
+				return false
+			}, func(k string) bool { return strings.HasPrefix(k, "builtin.") || strings.HasPrefix(k, engine.ModPrefix) })
+			if foreign == "" && !own {
+				continue
+			}
+			n++
+			r.Check(rule, sf("%s→%s#%d", Short(FK(cs.Fn)), Short(cs.Key), n), p.InstrPos(cs.Instr), own || foreign == "", "the map written back is the object's own",
+				"the map handed to the setter was read from "+foreign+", not from the object it is set on: that object's own labels/annotations are replaced by another object's")
+		}
+	}
+}
+
+// operandFromTheLoop (C09/C16/C14): small operand-exactness clauses of existing tables.
+func operandFromTheLoop(r *Report, p *Program, rule string) {
+	r.Rule(rule, "manageRevisions writes the desired revision of the iteration; decorator getChildren asks for the controller of the listed object; child handlers enqueue what resolveControllerRef / findPotentialParents returned")
+	r.Floor(rule, 6)
+	if f := fn(r, p, rule, "controller/composite.parentController.manageRevisions"); f != nil {
+		for _, l := range engine.RangeLoops(f) {
+			if E(l.X) != "p3" {
+				continue
+			}
+			for i, cs := range callsTo(f, false, "ControllerRevisionInterface.Update", "ControllerRevisionInterface.Create") {
+				if !l.Contains(cs.Instr.(ssa.Instruction)) || len(cs.Common().Args) < 2 {
+					continue
+				}
+				a := cs.Common().Args[1]
+				r.Check(rule, sf("%s→%s#%d[desired-revision]", Short(FK(f)), Short(cs.Key), i), p.InstrPos(cs.Instr), engine.PointsInto(a, l.Val) || engine.SameValue(a, l.Val), "the revision of this iteration",
+					"the ControllerRevision request carries "+E(a)+", not the desired revision of this iteration: what was computed is never persisted")
+			}
+		}
+	}
+	if f := fn(r, p, rule, "controller/decorator.decoratorController.getChildren"); f != nil {
+		for i, cs := range callsTo(f, false, "meta/v1.GetControllerOf") {
+			a := engine.Unwrap(cs.Common().Args[0])
+			ok := false
+			for _, l := range engine.RangeLoops(f) {
+				if l.Contains(cs.Instr.(ssa.Instruction)) && (engine.SameValue(a, l.Val) || engine.PointsInto(a, l.Val)) {
+					ok = true
+				}
+			}
+			r.Check(rule, sf("%s→GetControllerOf#%d", Short(FK(f)), i), p.InstrPos(cs.Instr), ok, "controller of the listed object", "ownership is judged on "+E(a)+", not on the object being listed")
+		}
+	}
+	for _, typ := range []string{"controller/composite.parentController", "controller/decorator.decoratorController"} {
+		for _, m := range []string{"onChildAdd", "onChildUpdate", "onChildDelete"} {
+			f := p.Func(typ + "." + m)
+			if f == nil {
+				continue
+			}
+			for i, cs := range callsTo(f, false, typ[strings.LastIndex(typ, ".")+1:]+".enqueueParentObject") {
+				a := cs.Common().Args[len(cs.Common().Args)-1]
+				ok := engine.DependsOnCall(a, engine.HasSuffix(".resolveControllerRef", ".findPotentialParents"), nil) != nil
+				r.Check(rule, sf("%s→enqueueParentObject#%d", Short(FK(f)), i), p.InstrPos(cs.Instr), ok, "the resolved parent is enqueued", "what is enqueued ("+E(a)+") is not the parent that resolveControllerRef / findPotentialParents returned (the child itself?): the parent is never woken")
+			}
+		}
+	}
+}
+
+// forwardUses visits the instructions that use v, through extracts, interface conversions and phis.
+func forwardUses(v ssa.Value, d int, seen map[ssa.Value]bool, visit func(ssa.Instruction)) {
+	if d > 6 || seen[v] {
+		return
+	}
+	seen[v] = true
+	refs := v.Referrers()
+	if refs == nil {
+		return
+	}
+	for _, u := range *refs {
+		visit(u)
+		switch x := u.(type) {
+		case *ssa.Extract:
+			if x.Index == 0 {
+				forwardUses(x, d+1, seen, visit)
+			}
+		case *ssa.MakeInterface:
+			forwardUses(x, d+1, seen, visit)
+		case *ssa.ChangeInterface:
+			forwardUses(x, d+1, seen, visit)
+		case *ssa.Phi:
+			forwardUses(x, d+1, seen, visit)
+		}
+	}
+}
+
+// patchHelpersTable (C09/C07/C08): makePatch(src, paths) reads every path from src and writes it, under the same
+// path, into the fresh map it returns; applyPatch(dest, patch, paths) reads from patch and writes into dest. The
+// path of a read and of its write is one value: the split of the loop's own field path.
+func patchHelpersTable(r *Report, p *Program, rule string) {
+	r.Rule(rule, "makePatch / applyPatch: source and target of each field copy, and the path used on both sides")
+	r.Floor(rule, 2)
+	for _, c := range []struct{ key, from, to, paths string }{
+		{"controller/composite.makePatch", "p0", "make<map>", "p1"},
+		{"controller/composite.applyPatch", "p1", "p0", "p2"},
+	} {
+		f := fn(r, p, rule, c.key)
+		if f == nil {
+			continue
+		}
+		reads, writes := callsTo(f, false, "unstructured.NestedFieldNoCopy"), callsTo(f, false, "unstructured.SetNestedField")
+		ok, why := len(reads) == 1 && len(writes) == 1, "expected one NestedFieldNoCopy and one SetNestedField"
+		if ok {
+			rd, wr := reads[0].Common().Args, writes[0].Common().Args
+			isTo := func(v ssa.Value) bool {
+				if c.to == "p0" {
+					return E(v) == "p0"
+				}
+				_, isMk := engine.Unwrap(v).(*ssa.MakeMap)
+				return isMk
+			}
+			pathOf := func(v ssa.Value) string {
+				if c := engine.DependsOnCall(v, engine.HasSuffix("strings.Split"), nil); c != nil {
+					return E(c.Common().Args[0])
+				}
+				return "?" + E(v)
+			}
+			switch {
+			case E(rd[0]) != c.from:
+				ok, why = false, "fields are read from "+E(rd[0])+", not from "+c.from
+			case !isTo(wr[0]):
+				ok, why = false, "fields are written into "+E(wr[0])+", not into "+c.to
+			case !engine.SameValue(rd[len(rd)-1], wr[len(wr)-1]) || strings.HasPrefix(pathOf(rd[len(rd)-1]), "?") || !(strings.HasPrefix(pathOf(rd[len(rd)-1]), c.paths+"[") || strings.Contains(pathOf(rd[len(rd)-1]), "range("+c.paths)):
+				ok, why = false, "the path read ("+pathOf(rd[len(rd)-1])+") and the path written ("+pathOf(wr[len(wr)-1])+") are not the split of this iteration's field path"
+			case E(wr[1]) != E(reads[0].Instr.(ssa.Value))+"#0" && !strings.Contains(E(wr[1]), "NestedFieldNoCopy"):
+				ok, why = false, "the value written is "+E(wr[1])+", not the value read"
+			}
+			if c.to != "p0" {
+				// the map written into is the one returned
+				for _, b := range f.Blocks {
+					if ret, isR := b.Instrs[len(b.Instrs)-1].(*ssa.Return); isR && len(ret.Results) == 2 && !isNilConst(ret.Results[0]) && !engine.SameValue(engine.Unwrap(ret.Results[0]), engine.Unwrap(wr[0])) {
+						ok, why = false, "the map returned is not the map the fields were written into"
+					}
+				}
+			}
+		}
+		r.Check(rule, FK(f), p.Pos(f.Pos()), ok, c.from+" → "+c.to+" under one path", why)
+	}
 }
